@@ -545,7 +545,12 @@ impl<'a> Searcher<'a> {
             }
         }
 
-        self.results_writer.write_footer(&mut std::io::stdout())?;
+        if let Err(e) = self.results_writer.write_footer(&mut std::io::stdout()) {
+            // the consumer is gone: not an error of the search, like for the header and the rows
+            if e.kind() != ErrorKind::BrokenPipe {
+                return Err(e);
+            }
+        }
 
         let completion_time = std::time::Instant::now();
         
